@@ -320,6 +320,16 @@ where
         self
     }
 
+    /// Verification hook: set the compression algorithm of the engine.
+    ///
+    /// `StoreBuilder::with_compression` is not passed on to the engine config, so without this hook every entry is
+    /// written with `Compression::None` and the compressed paths cannot be reached through the public API.
+    #[cfg(foyer_verif)]
+    pub fn verif_with_compression(mut self, compression: Compression) -> Self {
+        self.compression = compression;
+        self
+    }
+
     /// Pass the flush holder for test.
     #[cfg(any(test, feature = "test_utils"))]
     pub fn with_flush_switch(mut self, flush_switch: Switch) -> Self {
